@@ -708,7 +708,12 @@ func (ev *Env) findMethod(recv T, name string) *ssa.Function {
 	}
 	prog := ev.vc.P.SSA
 	t := recv.GT
-	for _, cand := range []types.Type{t, types.NewPointer(t)} {
+	cands := []types.Type{t, types.NewPointer(t)}
+	if pt, ok := unalias(t).Underlying().(*types.Pointer); ok {
+		// prefer the method declared on the element type (no synthetic pointer wrapper)
+		cands = []types.Type{pt.Elem(), t}
+	}
+	for _, cand := range cands {
 		ms := prog.MethodSets.MethodSet(cand)
 		for i := 0; i < ms.Len(); i++ {
 			s := ms.At(i)
@@ -832,6 +837,11 @@ func (ev *Env) applySpec(sf *SpecFunc, argEs []Expr) T {
 	for i, p := range sf.Params {
 		gt, srt := senv.resolveType(p.Type)
 		a := args[i]
+		if a.Sort != srt && a.GT != nil {
+			if pt, ok := unalias(a.GT).Underlying().(*types.Pointer); ok && ev.vc.sortOf(pt.Elem()) == srt {
+				a = ev.deref(a)
+			}
+		}
 		if a.Sort != srt {
 			if a.Sort == "Int" && srt == "Real" && a.GT == untypedInt {
 				a = T{toRealLit(a.S), "Real", gt}
